@@ -206,14 +206,34 @@ type owedLedger struct {
 	Q         map[string][]*owedItem // per kind, FIFO
 	Delivered int
 	ByKind    map[string]int
+	Once      map[string]int64 // things that can be owed only once in the lifetime of the chain -> height
+	Twice     []string         // ... that became owed a second time (reported by oracleQueues, C06)
 }
 
 func newOwedLedger() *owedLedger {
-	return &owedLedger{Q: map[string][]*owedItem{}, ByKind: map[string]int{}}
+	return &owedLedger{Q: map[string][]*owedItem{}, ByKind: map[string]int{}, Once: map[string]int64{}}
 }
 
 func (o *owedLedger) owe(kind, key, detail string, h int64) {
 	o.Q[kind] = append(o.Q[kind], &owedItem{kind, key, detail, h})
+	// a withdrawal is refunded or paid once, an output is credited once, an unlock is released once
+	id := ""
+	switch kind {
+	case "refund":
+		id = "withdrawal:" + key
+	case "paid":
+		id = "withdrawal:" + strings.SplitN(key, ":", 2)[0]
+	case "deposit":
+		if p := strings.SplitN(key, ":", 3); len(p) >= 2 {
+			id = "deposit:" + p[0] + ":" + p[1]
+		}
+	}
+	if id != "" {
+		if at, dup := o.Once[id]; dup {
+			o.Twice = append(o.Twice, fmt.Sprintf("%s (%s) became owed to the execution layer at height %d and again at height %d", id, detail, at, h))
+		}
+		o.Once[id] = h
+	}
 }
 
 func (o *owedLedger) pending() int {
@@ -383,6 +403,10 @@ func (w *World) oracleHandover(bi *BlockInfo) {
 func (w *World) oracleQueues(bi *BlockInfo) {
 	o, cur, b := w.M.Owed, w.M.Cur, bi.B
 	w.Stats.OracleEvals["C06"]++
+	for _, tw := range o.Twice {
+		w.violate("C06", "item-owed-twice", "duplicated", "height %d: %s", b.Height, tw)
+	}
+	o.Twice = nil
 	have := map[string]int{
 		"reward":  len(cur.Locking.EthTxQueue.Rewards),
 		"unlock":  len(cur.Locking.EthTxQueue.Unlocks),
